@@ -3,6 +3,7 @@ from __future__ import annotations
 
 import datetime
 
+from .. import core
 from ..probe import call
 from ..ref import bits, cpr
 from .. import cprgen
@@ -160,7 +161,7 @@ def mkcase(rng, lat, lon, order=None, rx=None):
     te, to = (base + gap, base) if o == "e" else (base, base + gap) if o == "o" else (base, base)
     return {"p0": [lat, lon], "p1": [lat1, lon1], "rx": rx, "tc": [rng.choice((5, 6, 7, 8)), rng.choice((5, 6, 7, 8))],
             "mov": rng.randrange(128), "trk": rng.randrange(256), "tbit": rng.randrange(2), "df": rng.choice((17, 17, 18)),
-            "ca": rng.randrange(8), "addr": rng.getrandbits(24), "te": te, "to": to, "dt": rng.random() < 0.15,
+            "ca": rng.randrange(8), "addr": rng.fill(24), "te": te, "to": to, "dt": rng.random() < 0.15,
             "api": rng.choice(("position", "surface_position")), "lower": rng.choice((0, 0, 0, 0, 0, 0, 0, 1, 2, 3))}
 
 
@@ -168,7 +169,7 @@ def cases(ctx):
     rng = ctx.rng
     quick = ctx.tier == "quick"
     import random as _r
-    drng = _r.Random(777)
+    drng = core.Rng(777)
     i = 0
     for nl in range(1, 60):
         for sgn in (1, -1):
